@@ -541,6 +541,78 @@ fn one_case(ctx: &Ctx, case: u64, l: &mut Local) {
             structural(&mut j, &format!("resigned-with-key-announced-in-header-{}", ha.name()), Some(forged), &fixed);
         }
     }
+    // ---- a key announced in the token's own iss (did:jwk, JWK text, data: URL, thumbprint-like)
+    // must never be used: the only source of the verification key is the resolver
+    {
+        use base64::Engine;
+        for (ha, hidx) in [(Alg::ES256, 0usize), (Alg::EdDSA, 1)] {
+            let full = keys::holder_jwk_json(ha, hidx);
+            let mut minimal = full.clone();
+            if let Some(o) = minimal.as_object_mut() {
+                o.retain(|k, _| ["kty", "crv", "x", "y"].contains(&k.as_str()));
+            }
+            for (ji, jwk) in [full, minimal].iter().enumerate() {
+                let txt = jwk.to_string();
+                let b = crate::model::b64e(txt.as_bytes());
+                let isses = [
+                    format!("did:jwk:{b}"),
+                    format!("did:jwk:{b}#0"),
+                    format!("did:jwk:{}", base64::engine::general_purpose::URL_SAFE.encode(txt.as_bytes())),
+                    txt.clone(),
+                    format!("data:application/jwk+json;base64,{}", base64::engine::general_purpose::STANDARD.encode(txt.as_bytes())),
+                    format!("jwk:{b}"),
+                    format!("https://self-issued.me/v2#{b}"),
+                    format!("urn:ietf:params:oauth:jwk-thumbprint:sha-256:{}", crate::model::digest_of(&txt)),
+                ];
+                for (k, iss) in isses.iter().enumerate() {
+                    let mut payload: Value = t.parts.payload().unwrap_or(Value::Null);
+                    payload["iss"] = json!(iss);
+                    let forged = api::sign_raw(&json!({"alg": ha.name(), "typ": "sd+jwt"}), &payload, ha.jwt(), &keys::holder_enc(ha, hidx));
+                    structural(&mut j, &format!("resigned-with-key-announced-in-iss-{}-{ji}-{k}", ha.name()), Some(forged), &fixed);
+                }
+            }
+        }
+    }
+    // ---- JSON only: the flattened members are NOT intact, but an unknown member carries the intact
+    // compact JWT (an "envelope" reader that prefers such a member would accept)
+    if fmt == Fmt::Json {
+        let broken: Vec<(&str, [String; 3])> = vec![
+            ("signature-emptied", [segs[0].clone(), segs[1].clone(), String::new()]),
+            ("payload-changed", {
+                let e = tamper::reencode_segment(&t.parts.jwt, 1, |v| { v["admin#env;"] = json!(true); }).and_then(|x| tamper::segments(&x));
+                e.unwrap_or([segs[0].clone(), format!("{}A", segs[1]), segs[2].clone()])
+            }),
+            ("members-empty", [String::new(), String::new(), String::new()]),
+        ];
+        for (bname, mem) in &broken {
+            for mname in ["jwt", "sd_jwt", "sd-jwt", "token", "compact", "jws", "credential", "issuer_signed_jwt", "vp_token", "serialized", "JWT", "sdjwt"] {
+                let mut m = serde_json::Map::new();
+                m.insert("protected".into(), json!(mem[0]));
+                m.insert("payload".into(), json!(mem[1]));
+                m.insert("signature".into(), json!(mem[2]));
+                m.insert("disclosures".into(), json!(t.parts.disclosures));
+                if let Some(k) = &t.parts.kb {
+                    m.insert("kb_jwt".into(), json!(k));
+                }
+                let mut texts = vec![];
+                let mut m1 = m.clone();
+                m1.insert(mname.into(), json!(t.parts.jwt));
+                texts.push(Value::Object(m1).to_string());
+                let mut m2 = serde_json::Map::new();
+                m2.insert(mname.into(), json!(t.parts.to_compact()));
+                for (k, v) in &m {
+                    m2.insert(k.clone(), v.clone());
+                }
+                texts.push(Value::Object(m2).to_string());
+                for (ti, text) in texts.iter().enumerate() {
+                    let v = api::verify(text, &fixed, t.kb.as_ref().map(|(a, n)| (a.as_str(), n.as_str())), fmt);
+                    j.l.count("fault.structural.kind.intact-jwt-only-in-unknown-member");
+                    j.l.distinct(crate::rng::mix(case ^ gen::hash_str(mname) ^ gen::hash_str(bname) ^ ti as u64));
+                    j.reject("structural", &format!("flattened members {bname}, intact JWT only in an unknown member ({} JSON)", alg.name()), Some(v), || json!({"member": mname, "broken": bname, "document": text}));
+                }
+            }
+        }
+    }
     // signed by a different key of the same family / resolver returning other keys
     {
         let payload: Value = t.parts.payload().unwrap();
